@@ -224,9 +224,16 @@ def bounded_dfxp_roundtrip(ctx, b):
                 node_l = rand_layout(rng) if rng.random() < 0.4 else None
                 if nodes:
                     nodes.append(CaptionNode.create_break(layout_info=cap_l))
+                # ... and a node without one may sit in a styled span that has no layout either: the span's text
+                # takes the caption's layout (else the language's)
+                italic = node_l is None and rng.random() < 0.4
                 if node_l:
                     nodes.append(CaptionNode.create_style(True, {}, layout_info=node_l))
+                if italic:
+                    nodes.append(CaptionNode.create_style(True, {"italics": True}))
                 nodes.append(T(f"t{j}{k}", node_l))
+                if italic:
+                    nodes.append(CaptionNode.create_style(False, {"italics": True}))
                 if node_l:
                     nodes.append(CaptionNode.create_style(False, {}, layout_info=node_l))
                 expect.append((f"t{j}{k}", node_l or cap_l or lang_l))
@@ -314,17 +321,20 @@ def bounded_webvtt(ctx, b):
             b.guard(("webvtt-shared", i, level), several, sample={"layout": repr(L), "level": level, "cues": 3})
     # nodes of one caption with different layouts -> separate cues with the same times
     la, lb = Layout(origin=Point(Size(10, PCT), Size(10, PCT))), Layout(origin=Point(Size(20, PCT), Size(70, PCT)))
-    # (text nodes that all carry a layout; a node without one inherits and is not "a different layout")
-    for seq, with_breaks in [(sq, wb) for sq in itertools.product([la, lb], repeat=4) for wb in (True, False)]:
+    lc = Layout(origin=Point(Size(40, PCT), Size(40, PCT)), alignment=Alignment(HA.RIGHT, VA.TOP))
+    # (a text node without a layout takes the caption's: next to a node with its own layout it is a different layout)
+    seqs = [(sq, wb) for sq in itertools.product([la, lb], repeat=4) for wb in (True, False)] + \
+           [(sq, wb) for sq in itertools.product([la, lb, None], repeat=3) for wb in (True, False) if None in sq]
+    for seq, with_breaks in seqs:
         nodes = []
         for k, l in enumerate(seq):
             if nodes and (with_breaks or seq[k - 1] == l):
                 # (without breaks: only inside a group, so that the groups' texts do not end in a line break)
                 nodes.append(CaptionNode.create_break(layout_info=l))
             nodes.append(T(f"n{k}", l))
-        cs = CaptionSet({"en": CaptionList([Caption(10 ** 6, 2 * 10 ** 6, nodes)])})
+        cs = CaptionSet({"en": CaptionList([Caption(10 ** 6, 2 * 10 ** 6, nodes, layout_info=lc)])})
 
-        def one():
+        def one(seq=seq, cs=cs):
             from refs import parsers
             cues = parsers.parse_webvtt(WebVTTWriter(fit_to_screen=False).write(cs))
             # expected groups: maximal runs of text nodes whose layout equals the previous text node's
@@ -336,8 +346,14 @@ def bounded_webvtt(ctx, b):
                     groups.append(([f"n{k}"], l))
             ok = len(cues) == len(groups) and all(cu["start"] == 10 ** 6 and cu["end"] == 2 * 10 ** 6 for cu in cues) \
                 and [[x for x in cu["lines"] if x] for cu in cues] == [g[0] for g in groups]
-            return ok, {"cues": [(cu["lines"], cu["settings"]) for cu in cues], "expected": [g[0] for g in groups]}
-        b.guard(("groups", tuple(id(x) for x in seq), with_breaks), one, sample={"layouts": [repr(x) for x in seq], "breaks_between_groups": with_breaks})
+            # ... each positioned by its own layout (the caption's for nodes without one)
+            want = []
+            for _, l in groups:
+                single = CaptionSet({"en": CaptionList([Caption(0, 10 ** 6, [T("x")], layout_info=l or lc)])})
+                want.append(parsers.parse_webvtt(WebVTTWriter(fit_to_screen=False).write(single))[0]["settings"])
+            ok = ok and [cu["settings"] for cu in cues] == want
+            return ok, {"cues": [(cu["lines"], cu["settings"]) for cu in cues], "expected": [g[0] for g in groups], "expected_settings": want}
+        b.guard(("groups", tuple(repr(x) for x in seq), with_breaks), one, sample={"layouts": [repr(x) for x in seq], "breaks_between_groups": with_breaks})
     # cue settings survive WebVTT -> WebVTT
     for s in ["align:left position:10%", "line:3", "size:50% align:end position:5%,line-left", "vertical:rl"]:
         doc = f"WEBVTT\n\n00:01.000 --> 00:02.000 {s}\nhello\n"
